@@ -6,6 +6,7 @@ import (
 	"go/constant"
 	"go/token"
 	"go/types"
+	"golang.org/x/tools/go/ssa"
 	"golang.org/x/tools/go/types/typeutil"
 	"strings"
 )
@@ -71,6 +72,12 @@ func (p *Program) privLiteralDepth(e ast.Expr, depth int) ([]privElem, bool) {
 	for _, el := range cl.Elts {
 		inner, ok := el.(*ast.CompositeLit)
 		if !ok {
+			if id, isId := ast.Unparen(el).(*ast.Ident); isId {
+				if pe, ok := p.localPrivElem(id); ok {
+					out = append(out, pe)
+					continue
+				}
+			}
 			out = append(out, privElem{admin: "?"})
 			continue
 		}
@@ -181,7 +188,20 @@ func rulesC19(c *Ctx) {
 							allAdmin = false
 						}
 					}
-					c.Check(allAdmin, "C19.admin", key, r.Pos(), tn+" is an administrative statement: every entry must have Admin: true")
+					unknown := false
+					for _, e := range elems {
+						if e.admin == "?" {
+							unknown = true
+						}
+					}
+					switch {
+					case allAdmin:
+						c.OK("C19.admin", key, r.Pos(), "every entry has Admin: true")
+					case unknown:
+						c.Unk("C19.admin", key, r.Pos(), tn+" is an administrative statement; an entry of the list is not a literal or a local built field by field, so its Admin flag is not read")
+					default:
+						c.Bad("C19.admin", key, r.Pos(), tn+" is an administrative statement: every entry must have Admin: true")
+					}
 				}
 				continue
 			}
@@ -474,31 +494,46 @@ func recursionC19(c *Ctx) {
 		c.Check(okSrc, "C19.recursion", "(*Parser).parseSelectStatement: FROM is mandatory", pd.Pos(), "stmt.Sources must be stored from parseSources unconditionally (SELECT's privilege list starts from the sources)")
 	}
 	// (3) Explain: every return delegates
-	if em := p.Method("ExplainStatement", "RequiredPrivileges"); em != nil {
-		ed := p.FuncDecls[em]
-		n, okAll := 0, true
-		ast.Inspect(ed.Body, func(nd ast.Node) bool {
-			r, ok := nd.(*ast.ReturnStmt)
-			if !ok {
-				return true
+	if ef := p.SSAFunc(p.Method("ExplainStatement", "RequiredPrivileges")); ef != nil {
+		n := 0
+		for _, blk := range ef.Blocks {
+			ret, ok := blk.Instrs[len(blk.Instrs)-1].(*ssa.Return)
+			if !ok || len(ret.Results) != 2 {
+				continue
 			}
 			n++
-			if len(r.Results) != 1 {
-				okAll = false
-				return true
+			key := fmt.Sprintf("(*ExplainStatement).RequiredPrivileges: return #%d delegates", n)
+			v := ret.Results[0]
+			if ex, ok := v.(*ssa.Extract); ok {
+				if call, ok := ex.Tuple.(*ssa.Call); ok && ex.Index == 0 {
+					name := ""
+					var recv ssa.Value
+					if call.Call.IsInvoke() {
+						name, recv = call.Call.Method.Name(), call.Call.Value
+					} else if cal := call.Call.StaticCallee(); cal != nil && len(call.Call.Args) > 0 {
+						name, recv = cal.Name(), call.Call.Args[0]
+					}
+					if name == "RequiredPrivileges" && recv != nil && derivesFromField(recv, "Statement", 0) {
+						c.OK("C19.recursion", key, ret.Pos(), "the explained statement's own privileges")
+						continue
+					}
+				}
 			}
-			call, ok := r.Results[0].(*ast.CallExpr)
-			if !ok {
-				okAll = false
-				return true
+			if k, ok := v.(*ssa.Const); ok && k.Value == nil {
+				if ek, isC := ret.Results[1].(*ssa.Const); !isC || ek.Value != nil {
+					c.OK("C19.recursion", key, ret.Pos(), "error path")
+					continue
+				}
 			}
-			sel, ok := call.Fun.(*ast.SelectorExpr)
-			if !ok || sel.Sel.Name != "RequiredPrivileges" || !strings.HasSuffix(types.ExprString(sel.X), ".Statement") {
-				okAll = false
+			if _, isSlice := v.(*ssa.Slice); isSlice {
+				c.Bad("C19.recursion", key, ret.Pos(), "EXPLAIN must require exactly what the explained statement requires; this path returns a list of its own")
+				continue
 			}
-			return true
-		})
-		c.Check(n >= 1 && okAll, "C19.recursion", "(*ExplainStatement).RequiredPrivileges: delegates on every path", ed.Pos(), "EXPLAIN must require exactly what the explained statement requires, on every return path")
+			c.Unk("C19.recursion", key, ret.Pos(), "the returned list is not recognisably the explained statement's")
+		}
+		if n == 0 {
+			c.Unk("C19.recursion", "(*ExplainStatement).RequiredPrivileges", ef.Pos(), "no return found")
+		}
 	}
 	// (4) CQ: write on target database
 	if cm := p.Method("CreateContinuousQueryStatement", "RequiredPrivileges"); cm != nil {
@@ -539,4 +574,70 @@ func (p *Program) globalInit(v *types.Var) ast.Expr {
 		}
 	}
 	return nil
+}
+
+// localPrivElem reads an ExecutionPrivilege local that is declared zero and
+// then filled field by field (`var e ExecutionPrivilege; e.Admin = true; ...`)
+// or defined from a literal.
+func (p *Program) localPrivElem(id *ast.Ident) (privElem, bool) {
+	obj := p.Info.ObjectOf(id)
+	if obj == nil || p.TypeStr(obj.Type()) != "ExecutionPrivilege" {
+		return privElem{}, false
+	}
+	var body *ast.BlockStmt
+	for _, fb := range p.funcBodies() {
+		if fb.Body.Pos() <= obj.Pos() && obj.Pos() < fb.Body.End() {
+			body = fb.Body
+		}
+	}
+	if body == nil {
+		return privElem{}, false
+	}
+	pe := privElem{admin: "false"}
+	whole := 0
+	ast.Inspect(body, func(n ast.Node) bool {
+		as, ok := n.(*ast.AssignStmt)
+		if !ok {
+			return true
+		}
+		for i, l := range as.Lhs {
+			if lid, ok := l.(*ast.Ident); ok && p.Info.ObjectOf(lid) == obj {
+				whole++
+				if len(as.Rhs) == len(as.Lhs) {
+					if cl, ok := ast.Unparen(as.Rhs[i]).(*ast.CompositeLit); ok {
+						pe = p.privElem(cl)
+					} else {
+						pe.admin = "?"
+					}
+				}
+				continue
+			}
+			sel, ok := l.(*ast.SelectorExpr)
+			if !ok {
+				continue
+			}
+			if sid := identOf(sel.X); sid == nil || p.Info.ObjectOf(sid) != obj || len(as.Rhs) != len(as.Lhs) {
+				continue
+			}
+			switch sel.Sel.Name {
+			case "Admin":
+				if tv := p.Info.Types[as.Rhs[i]]; tv.Value != nil && tv.Value.Kind() == constant.Bool {
+					if pe.admin == "true" || pe.admin == "false" {
+						pe.admin = fmt.Sprint(constant.BoolVal(tv.Value))
+					}
+				} else {
+					pe.admin = "?"
+				}
+			case "Privilege":
+				pe.privilege = types.ExprString(as.Rhs[i])
+			case "Name":
+				pe.name = types.ExprString(as.Rhs[i])
+			}
+		}
+		return true
+	})
+	if whole > 1 {
+		pe.admin = "?"
+	}
+	return pe, true
 }
